@@ -141,6 +141,29 @@ pub fn build_geom(raw: &RawGeom, g: usize, pool: &[C], other_cells: Option<&[boo
             _ => return None,
         });
     }
+    // the hull / star / shell-with-hole kinds need a minimum number of raw points: pad the drawn list with
+    // points derived from it (construction instead of refusing the draw)
+    let need = match raw.kind {
+        10 => 3,
+        11 => 4,
+        12 => 8,
+        _ => 0,
+    };
+    let padded: RawGeom;
+    let raw = if raw.pts.len() < need {
+        let mut pts = raw.pts.clone();
+        let mut i = 0u64;
+        while pts.len() < need {
+            let src = raw.pts[(i as usize) % raw.pts.len()];
+            let h = crate::engine::splitmix64(f as u64 ^ (i + 1).wrapping_mul(0x9E3779B97F4A7C15) ^ ((src.0 as u64) << 24 | (src.1 as u64) << 16 | (src.2 as u64) << 8 | src.3 as u64));
+            pts.push(((h & 255) as u8, ((h >> 8) % 13) as u8, ((h >> 16) % 13) as u8, ((h >> 24) & 255) as u8));
+            i += 1;
+        }
+        padded = RawGeom { kind: raw.kind, cells: raw.cells.clone(), pts, flags: raw.flags };
+        &padded
+    } else {
+        raw
+    };
     let bias = f & 1 == 0; // half of the second operands are coincidence-biased
     // "inside a hole" mode: every point of the second operand is the centre of a cell enclosed by the first
     // operand (points, lines and triangles strictly inside its holes, possibly several different holes)
@@ -430,6 +453,16 @@ pub fn build_pair(ra: &RawGeom, rb: &RawGeom, g: usize, m: &Mat, far: Option<(i6
     Some(Pair { a, b })
 }
 
+/// How often the fallible builders behind the strategies produced / refused a value
+/// (reported in the evidence: the rejection rate of the generator layer).
+pub static GEN_ACCEPT: std::sync::atomic::AtomicU64 = std::sync::atomic::AtomicU64::new(0);
+pub static GEN_REJECT: std::sync::atomic::AtomicU64 = std::sync::atomic::AtomicU64::new(0);
+pub fn counted<T>(v: Option<T>) -> Option<T> {
+    use std::sync::atomic::Ordering::Relaxed;
+    if v.is_some() { GEN_ACCEPT.fetch_add(1, Relaxed) } else { GEN_REJECT.fetch_add(1, Relaxed) };
+    v
+}
+
 pub fn pair_strategy() -> impl Strategy<Value = Pair> {
     (
         raw_geom(),
@@ -441,12 +474,12 @@ pub fn pair_strategy() -> impl Strategy<Value = Pair> {
             1 => (-3i64..=3, -3i64..=3).prop_filter("zero", |d| *d != (0, 0)).prop_map(|(dx, dy)| Some((dx * 14, dy * 14))),
         ],
     )
-        .prop_filter_map("out of domain", |(ra, rb, g, m, far)| build_pair(&ra, &rb, g, &m, far))
+        .prop_filter_map("out of domain", |(ra, rb, g, m, far)| counted(build_pair(&ra, &rb, g, &m, far)))
 }
 
 /// A single valid model geometry.
 pub fn geom_strategy() -> impl Strategy<Value = G> {
-    (raw_geom(), 1usize..=BOARD, mat_strategy()).prop_filter_map("out of domain", |(r, g, m)| {
+    (raw_geom(), 1usize..=BOARD, mat_strategy()).prop_filter_map("out of domain", |(r, g, m)| counted((move || {
         let a = build_geom(&r, g, &[], None)?;
         let a = apply_mat(&a, &m);
         if in_relate_domain(&a) {
@@ -454,14 +487,13 @@ pub fn geom_strategy() -> impl Strategy<Value = G> {
         } else {
             None
         }
-    })
+    })()))
 }
 
 /// valid areal geometry (Polygon or MultiPolygon only)
 pub fn areal_strategy() -> impl Strategy<Value = G> {
     (raw_geom(), 1usize..=BOARD, mat_strategy(), prop_oneof![Just(5u8), Just(6u8), Just(10u8), Just(11u8), Just(12u8)]).prop_filter_map(
-        "out of domain",
-        |(mut r, g, m, kind)| {
+        "out of domain", |(mut r, g, m, kind)| counted((move || {
             r.kind = kind;
             let a = build_geom(&r, g, &[], None)?;
             let a = apply_mat(&a, &m);
@@ -470,7 +502,7 @@ pub fn areal_strategy() -> impl Strategy<Value = G> {
             } else {
                 None
             }
-        },
+        })()),
     )
 }
 
@@ -483,8 +515,7 @@ pub struct Scene {
 
 pub fn scene_strategy(max_partners: usize) -> impl Strategy<Value = Scene> {
     (raw_geom(), proptest::collection::vec(raw_geom(), 1..=max_partners), 1usize..=BOARD, mat_strategy()).prop_filter_map(
-        "out of domain",
-        |(ra, rbs, g, m)| {
+        "out of domain", |(ra, rbs, g, m)| counted((move || {
             let a0 = build_geom(&ra, g, &[], None)?;
             let pool = feature_pool(&a0);
             let a = apply_mat(&a0, &m);
@@ -504,7 +535,7 @@ pub fn scene_strategy(max_partners: usize) -> impl Strategy<Value = Scene> {
                 return None;
             }
             Some(Scene { a, partners })
-        },
+        })()),
     )
 }
 
@@ -521,8 +552,7 @@ pub fn areal_scene_strategy() -> impl Strategy<Value = ArealScene> {
     let areal_kind = || prop_oneof![3 => Just(5u8), 3 => Just(6u8), 1 => Just(10u8), 1 => Just(11u8), 2 => Just(12u8)];
     let line_kind = || prop_oneof![Just(2u8), Just(3u8), Just(4u8)];
     (raw_geom(), raw_geom(), raw_geom(), areal_kind(), areal_kind(), line_kind(), 1usize..=BOARD, mat_strategy()).prop_filter_map(
-        "out of domain",
-        |(mut ra, mut rb, mut rl, ka, kb, kl, g, m)| {
+        "out of domain", |(mut ra, mut rb, mut rl, ka, kb, kl, g, m)| counted((move || {
             ra.kind = ka;
             rb.kind = kb;
             rl.kind = kl;
@@ -537,7 +567,7 @@ pub fn areal_scene_strategy() -> impl Strategy<Value = ArealScene> {
                 return None;
             }
             Some(ArealScene { a, b, line })
-        },
+        })()),
     )
 }
 
@@ -656,5 +686,39 @@ pub mod bytes {
                 if v.is_finite() && (v == 0.0 || (v.abs() >= 2f64.powi(-300) && v.abs() <= 2f64.powi(300))) { v } else { (bits % 2048) as f64 - 1024.0 }
             }
         })
+    }
+}
+
+#[cfg(test)]
+mod reject_stats {
+    use super::*;
+    use proptest::strategy::ValueTree;
+    use proptest::test_runner::TestRunner;
+    #[test]
+    fn areal_scene_reasons() {
+        let mut runner = TestRunner::deterministic();
+        let st = (raw_geom(), raw_geom(), raw_geom(), 1usize..=BOARD, mat_strategy(), 0usize..5, 0usize..5, 2u8..5);
+        let kinds = [5u8, 6, 10, 11, 12];
+        let mut cnt = std::collections::BTreeMap::<String, u32>::new();
+        for _ in 0..20000 {
+            let (mut ra, mut rb, mut rl, g, m, ka, kb, kl) = st.new_tree(&mut runner).unwrap().current();
+            ra.kind = kinds[ka];
+            rb.kind = kinds[kb];
+            rl.kind = kl;
+            let r = (|| {
+                let a0 = match build_geom(&ra, g, &[], None) { Some(x) => x, None => return format!("a-build kind{}", ra.kind) };
+                let pool = feature_pool(&a0);
+                let b0 = match build_geom(&rb, g, &pool, Some(&effective_cells(&ra, g))) { Some(x) => x, None => return format!("b-build kind{}", rb.kind) };
+                rl.flags &= !1;
+                let l0 = match build_geom(&rl, g, &pool, None) { Some(x) => x, None => return format!("l-build kind{}", rl.kind) };
+                let (a, b, line) = (apply_mat(&a0, &m), apply_mat(&b0, &m), apply_mat(&l0, &m));
+                if !in_relate_domain(&a) { return format!("a-domain kind{}", ra.kind); }
+                if !in_relate_domain(&b) { return format!("b-domain kind{}", rb.kind); }
+                if !in_relate_domain(&line) { return format!("l-domain kind{}", rl.kind); }
+                "ok".into()
+            })();
+            *cnt.entry(r).or_default() += 1;
+        }
+        for (k, v) in cnt { println!("REASON {k}: {v}"); }
     }
 }
